@@ -239,3 +239,42 @@ func VerifH_C06_tcpHistory3() {
 	}
 	verifCover("done")
 }
+
+// VerifH_C06_tcpReuse: the reader hands the next frame over in the SAME memory as the previous one
+// (a zero-copy reader may): two valid replies with solver-chosen fields written into one buffer one
+// after the other: each record carries its own frame's fields.
+func VerifH_C06_tcpReuse() {
+	vpn := verifParam("VPN", 0) == 1
+	res := &c06Results{}
+	sm := NewScanMethod(SYNScanType, nil, res, WithScanVPNmode(vpn), WithPacketFlagsFunc(c06BitFlags))
+	a, aip, aport, a12, a13 := c06ValidReply(vpn)
+	buf := make([]byte, len(a))
+	copy(buf, a)
+	err := sm.ProcessPacketData(buf, nil)
+	verifAssert(err == nil && len(res.got) == 1, "valid TCP reply not reported exactly once")
+	// what the first record said at the time
+	var ip0 string
+	if len(res.got) == 1 {
+		ip0 = res.got[0].(*ScanResult).IP
+		verifAssert(ip0 == net.IP(aip).String(), "record address is not the frame's own source address")
+	}
+	res.got = nil
+	// second frame: other host, other port, same memory
+	off := 14
+	if vpn {
+		off = 0
+	}
+	b4 := ndBytes("B.src", 4)
+	bport := ndU16("B.port")
+	copy(buf[off+12:off+16], b4)
+	buf[off+20], buf[off+21] = byte(bport>>8), byte(bport)
+	err = sm.ProcessPacketData(buf, nil)
+	verifAssert(err == nil && len(res.got) == 1, "valid TCP reply not reported exactly once")
+	if len(res.got) == 1 {
+		r := res.got[0].(*ScanResult)
+		verifAssert(r.IP == net.IP(b4).String(), "record address is not this frame's source address (remembered from the frame that was in this memory before?)")
+		verifAssert(r.Port == bport && r.Flags == c06BitFlagsRef(a12, a13), "record port/flags are not this frame's")
+	}
+	_ = aport
+	verifCover("done")
+}
